@@ -101,7 +101,7 @@ fn apply_simple<D: TextDecorator>(mut c: Config<D>, ops: &[Value]) -> Config<D> 
             "max_wrap" => c.max_wrap_width(n), "min_wrap" => c.min_wrap_width(n), "pad" => c.pad_block_width(),
             "overflow" => c.allow_width_overflow(), "raw" => c.raw_mode(b), "noborders" => c.no_table_borders(),
             "nolinkwrap" => c.no_link_wrapping(), "footnotes" => c.link_footnotes(b), "strike" => c.unicode_strikeout(b),
-            "decorate" => c.do_decorate(), _ => c,
+            "decorate" => c.do_decorate(), "doccss" => c.use_doc_css(), _ => c,
         };
     }
     c
